@@ -340,6 +340,57 @@ def lua_key(path, name):
     return ".".join(comps[-2:]) if comps else "~" + name
 
 
+OUTLIVE = {
+    # each installs HANDLER inside the context; the code after the context gives it every chance to run
+    "hook-line": 'pcall(debug.sethook, HANDLER, "l")',
+    "hook-call": 'pcall(debug.sethook, HANDLER, "c")',
+    "hook-return": 'pcall(debug.sethook, HANDLER, "r")',
+    "hook-count": 'pcall(debug.sethook, HANDLER, "", 1)',
+    "hook-on-main-from-coroutine": 'local main = coroutine.running() coroutine.wrap(function() pcall(debug.sethook, main, HANDLER, "l") end)()',
+    "gc-table": 'setmetatable({}, {__gc = HANDLER})',
+    "gc-table-nested": 'runtime.callcontext({}, function() setmetatable({}, {__gc = HANDLER}) end)',
+    "close-lost-sibling": 'local a <close> = setmetatable({}, {__close = HANDLER}) local mb = {__close = function() end} local b <close> = setmetatable({}, mb) mb.__close = nil error("x", 0)',
+    "message-handler": 'xpcall(function() coroutine.yield() end, HANDLER)',
+}
+
+
+def outlive_family(rep, drv):
+    """Outlive.tla: a handler installed inside a context requiring F never runs with fewer requirements"""
+    lines = []
+    res = run_tlc("Outlive", "Outlive.cfg", timeout=120, on_line=lines.append, workers=1)
+    if res.violation:
+        raise Infra("Outlive: " + res.violation)
+    cases = []
+    for i, l in enumerate(lines):
+        if l["mech"] not in OUTLIVE:
+            raise Infra("no rendering for mechanism " + l["mech"])
+        # HANDLER must itself be callable under the flags: emit is compliant with all of them, runtime.context too
+        src = ('local CO\nlocal function HANDLER() pcall(debug.sethook) emit("ran", runtime.context().flags) end\n'
+               'pcall(runtime.callcontext, {flags = "%s"}, function()\n  %s\nend)\n'
+               'local x = 0 for i = 1, 20 do x = x + i end local function f() return x end f() f()\n'
+               'if CO then coroutine.close(CO) end\ncollectgarbage() collectgarbage()\nemit("end")' % (" ".join(sorted(l["req"])), OUTLIVE[l["mech"]]))
+        cases.append({"id": i, "src": src, "timeout": 30000, "helpers": True})
+    outs = run_lua_cases(drv, cases)
+    rep.cov["outlive_cases"] = len(cases)
+    ran = 0
+    for i, l in enumerate(lines):
+        o = outs[i]
+        ok = [sorted(x) for x in l["ok"]]
+        if o.get("timeout") or o.get("crash") or o.get("panic"):
+            rep.violation({"kind": "outlive", "mech": l["mech"], "why": "crash-or-hang"}, {"src": cases[i]["src"], "observed": o})
+            continue
+        for e in o.get("events", []):
+            if e and isinstance(e[0], dict) and e[0].get("s") == "ran":
+                ran += 1
+                seen = sorted((e[1] or {}).get("s", "").split())
+                if seen not in ok:
+                    rep.violation({"kind": "outlive", "mech": l["mech"], "why": "ran-with-fewer-flags", "req": "+".join(sorted(l["req"]))},
+                                  {"src": cases[i]["src"], "required_inside": sorted(l["req"]), "required_when_it_ran": seen, "observed": o})
+                    break
+    rep.cov["outlive_handler_runs_observed"] = ran
+    log("[%s] Outlive: %d (mechanism, flags) cases, handler ran %d times, always under the flags of its context" % (rep.prop, len(cases), ran))
+
+
 def run(prop, tier):
     rep = Report(prop, tier, "model_checking")
     cov = rep.cov
@@ -659,4 +710,5 @@ def run(prop, tier):
                         "the static effect class is a regex reading of the sources and only produces leads",
                         "a finaliser of a value created in a context without a hard limit runs in whichever context sharing the finaliser pool is current when it is collected "
                         "(at the latest when the owner of the pool ends): the spec accepts the verdict of any of them (StrictGc = FALSE)"]
+    outlive_family(rep, drv)
     return rep.finish()
